@@ -30,7 +30,7 @@ var errInjected = errors.New("injected GetNext failure")
 func (f *faultyRepo) GetNext(ctx context.Context) (def.Task, error) {
 	f.calls++
 	if f.failNext {
-		f.failNext = false
+		// the fault lasts until the harness clears it (for the whole operation)
 		return def.Task{}, errInjected
 	}
 	return f.Repository.GetNext(ctx)
